@@ -743,4 +743,85 @@ theorem evalB_foldFn_or (f : Fold) (r : Row) (e : BoolE) (es : List BoolE) :
   · simp only [foldFn, evalB_foldl_or, foldl_or3, List.map_cons, or3_any3]
 
 
+/-! ## typed tokens are determined by the lexical stream -/
+
+theorem BinOp.ofSpell_spell (o : BinOp) : BinOp.ofSpell o.spell = some o := by
+  cases o <;> decide
+
+theorem PreOp.ofSpell_spell (p : PreOp) : PreOp.ofSpell p.spell = some p := by
+  cases p <;> decide
+
+/-- `R b s`: read from the state `b` (`false` = operand expected), the symbols of `s` followed by
+    anything are classified back to `s`, ending after an operand -/
+def Retags (b : Bool) (s : List Tok) : Prop :=
+  ∀ k : List Tok, retag b ((s ++ k).map Tok.erase) = (retag true (k.map Tok.erase)).map (s ++ ·)
+
+theorem retags_wrap (s : List Tok) (h : Retags false s) : Retags false (wrapS s) := by
+  unfold wrapS
+  split
+  · exact h
+  · exact h
+  · intro k
+    have := h (Tok.rp :: k)
+    simp only [List.cons_append, List.append_assoc, List.map_cons, Tok.erase, retag, this, List.nil_append]
+    cases retag true (k.map Tok.erase) <;> simp
+
+theorem retags_rend (t : T) :
+    (wf false t = true → Retags false (rend false t)) ∧
+    (wf true t = true → Retags false (rend false t) ∧ Retags true (rend true t)) := by
+  induction t with
+  | col c => refine ⟨fun _ k => ?_, by simp [wf]⟩; simp [rend, Tok.erase, retag]
+  | num n => refine ⟨fun _ k => ?_, by simp [wf]⟩; simp [rend, Tok.erase, retag]
+  | null => refine ⟨fun _ k => ?_, by simp [wf]⟩; simp [rend, Tok.erase, retag]
+  | nil =>
+    refine ⟨by simp [wf], fun _ => ⟨fun k => ?_, fun k => ?_⟩⟩ <;> simp [rend, Tok.erase, retag] <;>
+      (cases retag true (k.map Tok.erase) <;> simp)
+  | bin o l r ihl ihr =>
+    refine ⟨fun hw k => ?_, by simp [wf]⟩
+    simp only [wf, Bool.and_eq_true] at hw
+    have hl := retags_wrap _ (ihl.1 hw.1)
+    have hr := retags_wrap _ (ihr.1 hw.2)
+    have h2 := hr (Tok.rp :: k)
+    have h1 := hl (Tok.op o :: (wrapS (rend false r) ++ Tok.rp :: k))
+    simp only [rend, List.cons_append, List.append_assoc, List.nil_append, List.map_cons, Tok.erase, retag] at h1 h2 ⊢
+    rw [h1]
+    simp only [BinOp.ofSpell_spell, h2]
+    cases retag true (k.map Tok.erase) <;> simp
+  | un p t ih =>
+    refine ⟨fun hw k => ?_, by simp [wf]⟩
+    simp only [wf] at hw
+    have h := ih.1 hw k
+    simp only [rend, List.cons_append, List.map_cons, Tok.erase, retag, PreOp.ofSpell_spell, h]
+    cases retag true (k.map Tok.erase) <;> simp
+  | isin x l ihx ihl =>
+    refine ⟨fun hw k => ?_, by simp [wf]⟩
+    simp only [wf, Bool.and_eq_true] at hw
+    have hx := retags_wrap _ (ihx.1 hw.1)
+    have h2 := (ihl.2 hw.2).1 (Tok.rp :: k)
+    have h1 := hx (Tok.kwIn :: (rend false l ++ Tok.rp :: k))
+    simp only [rend, List.cons_append, List.append_assoc, List.nil_append, List.map_cons, Tok.erase, retag] at h1 h2 ⊢
+    rw [h1]
+    simp only [h2]
+    cases retag true (k.map Tok.erase) <;> simp
+  | call f a ih =>
+    refine ⟨fun hw k => ?_, by simp [wf]⟩
+    simp only [wf] at hw
+    have h := (ih.2 hw).1 k
+    simp only [rend, List.cons_append, List.map_cons, Tok.erase, retag, h]
+    cases retag true (k.map Tok.erase) <;> simp
+  | cons h t ihh iht =>
+    refine ⟨by simp [wf], fun hw => ?_⟩
+    simp only [wf, Bool.and_eq_true] at hw
+    constructor <;> intro k <;>
+    · have h1 := ihh.1 hw.1 (rend true t ++ k)
+      have h2 := (iht.2 hw.2).2 k
+      simp only [rend, List.cons_append, List.append_assoc, List.map_cons, Tok.erase, retag, h1, h2]
+      cases retag true (k.map Tok.erase) <;> simp
+
+theorem retag_rend (t : T) (h : wf false t = true) :
+    retag false ((rend false t).map Tok.erase) = some (rend false t) := by
+  have := (retags_rend t).1 h []
+  simpa [retag] using this
+
+
 end SqlObjVerif.Expr
